@@ -238,6 +238,32 @@ fn single_exhaustive(acc: &mut Acc, pat: &[u8], lay: Option<&Layout>, unwind_onl
 // ---------------------------------------------------------------------------
 // bulk selection
 // ---------------------------------------------------------------------------
+/// Hands a request list to `f` as a 1-D array of positions in one of three representations: an owned
+/// contiguous array, a reversed view, every second cell of a larger buffer (the request array's own layout must
+/// not matter; the filler cells hold a huge position that would be out of range if it were read).
+fn with_request<R>(req: &[usize], mode: usize, f: impl FnOnce(ArrayView1<'_, usize>) -> R) -> R {
+    match mode % 3 {
+        0 => {
+            let a = Array1::from(req.to_vec());
+            f(a.view())
+        }
+        1 => {
+            let mut r = req.to_vec();
+            r.reverse();
+            let a = Array1::from(r);
+            f(a.slice(ndarray::s![..;-1]))
+        }
+        _ => {
+            let mut buf = vec![usize::MAX / 3; 2 * req.len() + 1];
+            for (i, &x) in req.iter().enumerate() {
+                buf[1 + 2 * i] = x;
+            }
+            let a = Array1::from(buf);
+            f(a.slice(ndarray::s![1..1 + 2 * req.len();2]))
+        }
+    }
+}
+
 fn run_bulk(
     acc: &mut Acc,
     data: &[Tracked],
@@ -248,12 +274,14 @@ fn run_bulk(
 ) -> bool {
     let n = data.len();
     acc.eval();
-    let req = Array1::from(request.to_vec());
+    // representation of the request array: chosen by the request's own content (deterministic per case)
+    let rmode = request.iter().fold(request.len(), |a, &b| a.wrapping_mul(31).wrapping_add(b)) % 3;
+    acc.count(&format!("request_array_representation_{}", rmode));
     let (res, after, guards_ok) = match lay {
         None => {
             let mut a = Array1::from(data.to_vec());
             set_budget(budget_for(n) * 4);
-            let r = catch(|| a.get_many_from_sorted_mut(&req));
+            let r = with_request(request, rmode, |req| catch(|| a.get_many_from_sorted_mut(&req)));
             set_budget(u64::MAX);
             (r, a.to_vec(), true)
         }
@@ -264,7 +292,7 @@ fn run_bulk(
             let r = {
                 let mut v = e.view_mut().into_dimensionality::<Ix1>().unwrap();
                 set_budget(budget_for(n) * 4);
-                let r = catch(|| v.get_many_from_sorted_mut(&req));
+                let r = with_request(request, rmode, |req| catch(|| v.get_many_from_sorted_mut(&req)));
                 set_budget(u64::MAX);
                 r
             };
@@ -1080,8 +1108,7 @@ fn main() {
                     requests.push(vec![n - 1, o, n - 1, 0]);
                 }
             }
-            for req in requests {
-                let reqa = Array1::from(req.clone());
+            for (req, rmode) in requests.iter().flat_map(|r| (0..3usize).map(move |m| (r.clone(), m))) {
                 let accc = std::cell::RefCell::new(&mut *acc);
                 let (cnt, _ok, _c) = enumerate_pivots(
                     5_000,
@@ -1091,8 +1118,8 @@ fn main() {
                         must_panic(
                             &mut a,
                             "get_many_from_sorted_mut",
-                            || J::obj(vec![("keys", J::A(pat.iter().map(|&x| J::I(x as i128)).collect())), ("request", J::A(req.iter().map(|x| J::s(format!("{}", x))).collect())), ("n", J::u(n))]),
-                            || arr.get_many_from_sorted_mut(&reqa),
+                            || J::obj(vec![("keys", J::A(pat.iter().map(|&x| J::I(x as i128)).collect())), ("request", J::A(req.iter().map(|x| J::s(format!("{}", x))).collect())), ("request_array", J::s(["owned contiguous", "reversed view", "stepped view"][rmode])), ("n", J::u(n))]),
+                            || with_request(&req, rmode, |reqa| arr.get_many_from_sorted_mut(&reqa)),
                         );
                     },
                     |_| {},
@@ -1132,7 +1159,8 @@ fn main() {
             let mk = |ne: usize| Bins::new(Edges::from((0..ne as i32).map(|x| x * 10).collect::<Vec<i32>>()));
             // Edges index
             let edges = Edges::from((0..e0 as i32).collect::<Vec<i32>>());
-            for i in [e0, e0 + 1, usize::MAX] {
+            let far: Vec<usize> = (0..=9usize).map(|k| usize::MAX - k).chain([isize::MAX as usize - 1, isize::MAX as usize, isize::MAX as usize + 1, isize::MAX as usize + 2, (1usize << 63) + e0, 1usize << 32, (1usize << 32) + 1]).collect();
+            for i in [e0, e0 + 1].into_iter().chain(far.iter().cloned()) {
                 must_panic(acc, "Edges[i]", || J::obj(vec![("n_edges", J::u(e0)), ("i", J::s(format!("{}", i)))]), || edges[i]);
                 acc.exact_nontrivial += 1;
             }
@@ -1144,7 +1172,7 @@ fn main() {
             }
             let bins = mk(e0);
             let nb = e0.saturating_sub(1);
-            for i in [nb, nb + 1, usize::MAX, usize::MAX - 1] {
+            for i in [nb, nb + 1].into_iter().chain(far.iter().cloned()) {
                 must_panic(acc, "Bins::index", || J::obj(vec![("n_edges", J::u(e0)), ("i", J::s(format!("{}", i)))]), || bins.index(i));
                 acc.exact_nontrivial += 1;
             }
@@ -1161,9 +1189,9 @@ fn main() {
                 let shape: Vec<usize> = (0..nd).map(|a| ne[a].saturating_sub(1)).collect();
                 // one coordinate out of range, others in range (if possible) or 0
                 for bad in 0..nd {
-                    for off in [0usize, 1, usize::MAX] {
+                    for off in [0usize, 1].into_iter().chain(far.iter().cloned()) {
                         let mut idx: Vec<usize> = shape.iter().map(|&s| s.saturating_sub(1)).collect();
-                        idx[bad] = if off == usize::MAX { usize::MAX } else { shape[bad] + off };
+                        idx[bad] = if off > 1 { off } else { shape[bad] + off };
                         must_panic(acc, "Grid::index", || J::obj(vec![("grid_shape", J::us(&shape)), ("index", J::A(idx.iter().map(|x| J::s(format!("{}", x))).collect()))]), || grid.index(&idx));
                         acc.exact_nontrivial += 1;
                     }
